@@ -50,8 +50,8 @@ CHECKS = {
         "DESIGN.md §6 C07",
     ),
     "C08": (
-        "executed enum probe (native + Miri) of discriminants/size/Default over generated enums + exhaustive acceptance sweep against the reference rule",
-        "Every accepted generated enum (all integer bases, 1-32 variants, boundary values, default marker at any position, a third through the text path) is emitted, compiled and its variants' numeric values, size/align and Default::default() read from the executed probe; acceptance (all stages incl. the backend) is compared with the reference rule for the complete space of <=3 variants x boundary constants x bases x default position. Exploration, exhaustive for the acceptance sweep (thorough).",
+        "executed enum probe (native + Miri) of discriminants/size/Default over generated enums + nightly no_core compile for i686-pc-windows-msvc with compiled-value assertions + exhaustive acceptance sweep against the reference rule",
+        "Every accepted generated enum (all integer bases, 1-32 variants, boundary values, default marker at any position, a third through the text path) is emitted, compiled and its variants' numeric values, size/align and Default::default() read from the executed probe; the same enums are built for 4-byte pointers and their definitions compiled for i686-pc-windows-msvc, where every variant's compiled value must equal the value it is written with and size/alignment (compiled and in the registry) must be the base type's; acceptance (all stages incl. the backend) is compared with the reference rule for the complete space of <=3 variants x boundary constants x bases x default position. Exploration, exhaustive for the acceptance sweep (thorough).",
         "Trusted: rustc's evaluation of `E::V as i128`; Miri; the reference rule (first = 0, successor = previous + 1, range of the base type, default marker iff defaultable); duplicate discriminants unspecified here (C13).",
         "DESIGN.md §6 C08",
     ),
@@ -63,7 +63,7 @@ CHECKS = {
     ),
     "C10": (
         "differential build-verdict monitor over generated dependency graphs + hook-trace online checker (resolution order, progress, iteration bound) + exhaustive 3-type digraphs",
-        "Builds random dependency graphs (2-12 types, enums, 1-4 modules; pointer cycles, by-value chains and cycles through fields/arrays/bases, undefined names in every position) and all 19683 labelled digraphs on 3 types with the real pyxis and compares Ok/Err, the type list of the non-termination error, the registry and the emitted items/signatures with the reference (least fixpoint of sizeable items); the hook trace is checked online: a type resolves only after its by-value dependencies, never twice, every continuing iteration makes progress, iterations <= items+1. Exhaustive for the digraph space, sampled beyond.",
+        "Builds random dependency graphs (2-12 types, enums, 1-4 modules; pointer cycles, by-value chains and cycles through fields/arrays/bases, undefined names in every position) and all 19683 labelled digraphs on 3 types with the real pyxis and compares Ok/Err, the type list of the non-termination error, the registry and the emitted items/signatures with the reference (least fixpoint of sizeable items); the hook trace is checked online: a type resolves only after its by-value dependencies, never twice, every continuing iteration makes progress (a resolved item or a generated vftable struct), iterations <= items + generated structs + 1. Edges include pointers to arrays and to pointers; undefined names also sit in `_`-prefixed and private functions. Exhaustive for the digraph space, sampled beyond.",
         "Trusted: reference unresolvable-set rule (DESIGN appendix A.2); layouts valid by construction from reference sizes; hook events placed in SemanticState::build.",
         "DESIGN.md §6 C10",
     ),
@@ -75,13 +75,13 @@ CHECKS = {
     ),
     "C12": (
         "crash/resource monitor: hostile inputs in worker child processes under catch_unwind, counting allocator with budget and hard cap, iteration bound from the hook trace, watchdog; parse-error position oracle",
-        "Feeds tens of thousands (quick) to hundreds of thousands (thorough) of inputs in 16 categories (token/byte soup, token-level mutations and splices of valid files, boundary integers in every numeric position, recursive and deeply nested types, odd identifiers, stray tokens, file-system faults, API sequences) to the real parser, SemanticState API and pyxis::build inside worker processes; a panic, abort, stack overflow, allocation beyond 64 MiB + 64 KiB per input byte (hard cap 1 GiB), more than items+1 resolution iterations, or a parse error without a correct file:line:col is a violation; a watchdog firing is inconclusive. Exploration.",
+        "Feeds tens of thousands (quick) to hundreds of thousands (thorough) of inputs in 16 categories (token/byte soup, token-level mutations and splices of valid files, boundary integers in every numeric position, recursive and deeply nested types, odd identifiers, stray tokens, file-system faults, API sequences, extern types at every power-of-two size/alignment as sole field, array element and base) to the real parser, SemanticState API and pyxis::build inside worker processes; a panic, abort, stack overflow, allocation beyond 64 MiB + 64 KiB per input byte (hard cap 1 GiB), more than items+1 resolution iterations, or a parse error without a correct file:line:col is a violation; a watchdog firing is inconclusive. Exploration.",
         "Trusted: the counting global allocator of the harness; debug assertions and overflow checks enabled in the pyxis build under test; nesting depth limited to 1000 (inputs of a few kilobytes).",
         "DESIGN.md §6 C12",
     ),
     "C13": (
         "compiler-as-monitor: rustc --emit=metadata on assembled crates of generated accepted programs + nightly rustc for i686-pc-windows-msvc definitions + syn parse",
-        "Assembles the emitted files of generated accepted multi-module programs (markers drawn independently of field types, cross-module references, inheritance, singletons, extern values, prologues/epilogues, dedicated marker/packed/singleton/discriminant cases) into crates mirroring the input tree with extern types supplied, and requires rustc to type-check them on the host and the definitions on i686-pc-windows-msvc. One-directional oracle: accepted => compiles. Exploration.",
+        "Assembles the emitted files of generated accepted multi-module programs (markers drawn independently of field types, cross-module references, inheritance, singletons, extern values, prologues/epilogues, dedicated marker/packed/singleton/discriminant cases, hostile perturbations of valid programs, and a name-clash family in which user names coincide with generated names or with each other: fields, variants, virtual functions, parameters, extern values, `vftable`/`get`/`_field_N`/`_vfunc_N`/`<base>_<fn>`) into crates mirroring the input tree with extern types supplied, and requires rustc to type-check them on the host and the definitions on i686-pc-windows-msvc. One-directional oracle: accepted => compiles. Exploration.",
         "Trusted: rustc; the supplied extern type stand-ins (repr(C, align) byte arrays deriving Copy/Clone/Default); ABI strings normalised to C on the host.",
         "DESIGN.md §6 C13",
     ),
@@ -111,7 +111,7 @@ CHECKS = {
     ),
     "C19": (
         "metamorphic output monitor: bytes of the observed module's file across input sets that differ only outside its reachable closure",
-        "For generated accepted multi-module sets with an observed module M, builds variants that remove, replace or add modules outside M's import closure (same short names elsewhere and nested under M's path with vftable-bearing types, 40 filler types) and requires byte-identical files for M and its closure whenever the variant is still accepted. Exploration.",
+        "For generated accepted multi-module sets with an observed module M, builds variants that remove, replace or add modules outside M's import closure (same short names elsewhere, in an ancestor and nested under M's path with vftable-bearing types, 40 filler types), and variants that add definitions M does not reference to a module M imports from (named like M's own types and generated vftable structs; item import, module import, both; both add orders), and requires byte-identical files for M and its closure whenever the variant is still accepted. Exploration.",
         "Trusted: closure computed from use paths; byte comparison.",
         "DESIGN.md §6 C19",
     ),
